@@ -18,11 +18,14 @@ all inputs:
   `write_term ⇄ write_triple`, `cmp_bindings_with` under any sort, `jsonify` over any number of nodes,
   `populate_list ⇄ convert_rdf_object`, `select ⇄ operators` over any number of named graphs, and the
   prettifier's `write_term ⇄ … ⇄ write_properties`.
-* FINDING (kernel-checked): the prettifier's depth is bounded by the nesting of everything it nests
-  (`pretty_depth_bounded`), which includes anonymous blank nodes `[ … ]`; it is NOT bounded by the
-  nesting of the data (quoted triples, collections) — `pretty_full_refuted`: a chain of `n` blank
-  nodes (n plain statements) needs 5n + 1 nested calls.  `pretty_chain_status` follows the generated
-  `prettyBnodeNestingCap`: unbounded while /repo has no cap, bounded by the cap once it has.
+* the prettifier: WITHOUT a cap on the nesting of anonymous blank nodes `[ … ]` its depth is bounded by
+  the nesting of everything it nests (`pretty_depth_bounded`) but NOT by the nesting of the data —
+  `pretty_full_refuted`: a chain of `n` blank nodes (n plain statements) needs 5n + 1 nested calls
+  (the defect fixed in /repo da7f8f8).  The REPAIRED text walks `cut c 0 t` (a blank node at nesting
+  `c` is labelled and described in a tree of its own): `pretty_repaired_depth_bounded` — depth
+  ≤ 1 + 6 (data nesting + c) for every tree; `pretty_cap_present` is decided on the constant
+  regenerated from _pretty.rs on every run, `pretty_chain_bounded` is the unconditional statement for
+  chains of any length, `pretty_chain_status` the dichotomy on the regenerated cap.
 * over the generated table `Gen.RecursionSites.sites`: every row is known to the model
   (`table_names_known`) and no row is `selfRecursiveOnData` (`table_all_bounded`) — both decided on
   the table regenerated on every run, so a regression of either fails an obligation; every row that
@@ -661,6 +664,129 @@ theorem pretty_full_refuted : ¬ PrettyFull := by
 nodes (`nestAll` counts both; `pretty_depth_bounded`) -/
 theorem pretty_depth_bounded_partial (t : PT) : wTerm t ≤ 1 + 6 * t.nestAll := pretty_depth_bounded t
 
+/-! ### the repaired prettifier (`MAX_BNODE_NESTING`): the tree it walks is `cut c 0 t` -/
+
+mutual
+theorem anonNest_cut : ∀ (t : PT) (c lvl : Nat), (t.cut c lvl).anonNest ≤ c - lvl
+  | .atom, c, lvl => by simp [PT.cut, PT.anonNest]
+  | .quoted s p o, c, lvl => by
+    have := anonNest_cut s c lvl; have := anonNest_cut p c lvl; have := anonNest_cut o c lvl
+    simp only [PT.cut, PT.anonNest]; omega
+  | .coll items, c, lvl => by
+    have := anonNest_cuts items c lvl
+    simp only [PT.cut, PT.anonNest]; omega
+  | .anon arcs, c, lvl => by
+    have := anonNest_cuta arcs c (lvl + 1)
+    simp only [PT.cut]
+    split
+    · simp [PT.anonNest]
+    · simp only [PT.anonNest]; omega
+theorem anonNest_cuts : ∀ (ts : PTs) (c lvl : Nat), (ts.cut c lvl).anonNest ≤ c - lvl
+  | .nil, c, lvl => by simp [PTs.cut, PTs.anonNest]
+  | .cons t ts, c, lvl => by
+    have := anonNest_cut t c lvl; have := anonNest_cuts ts c lvl
+    simp only [PTs.cut, PTs.anonNest]; omega
+theorem anonNest_cuta : ∀ (a : PArcs) (c lvl : Nat), (a.cut c lvl).anonNest ≤ c - lvl
+  | .nil, c, lvl => by simp [PArcs.cut, PArcs.anonNest]
+  | .cons p o v ann rest, c, lvl => by
+    have := anonNest_cut p c lvl; have := anonNest_cut o c lvl
+    have := anonNest_cuta ann c lvl; have := anonNest_cuta rest c lvl
+    simp only [PArcs.cut, PArcs.anonNest]; omega
+end
+
+mutual
+theorem nestData_cut : ∀ (t : PT) (c lvl : Nat), (t.cut c lvl).nestData ≤ t.nestData
+  | .atom, c, lvl => by simp [PT.cut]
+  | .quoted s p o, c, lvl => by
+    have := nestData_cut s c lvl; have := nestData_cut p c lvl; have := nestData_cut o c lvl
+    simp only [PT.cut, PT.nestData]; omega
+  | .coll items, c, lvl => by
+    have := nestData_cuts items c lvl
+    simp only [PT.cut, PT.nestData]; omega
+  | .anon arcs, c, lvl => by
+    have := nestData_cuta arcs c (lvl + 1)
+    simp only [PT.cut]
+    split
+    · simp [PT.nestData]
+    · simp only [PT.nestData]; omega
+theorem nestData_cuts : ∀ (ts : PTs) (c lvl : Nat), (ts.cut c lvl).nestData ≤ ts.nestData
+  | .nil, c, lvl => by simp [PTs.cut]
+  | .cons t ts, c, lvl => by
+    have := nestData_cut t c lvl; have := nestData_cuts ts c lvl
+    simp only [PTs.cut, PTs.nestData]; omega
+theorem nestData_cuta : ∀ (a : PArcs) (c lvl : Nat), (a.cut c lvl).nestData ≤ a.nestData
+  | .nil, c, lvl => by simp [PArcs.cut]
+  | .cons p o v ann rest, c, lvl => by
+    have hp := nestData_cut p c lvl; have ho := nestData_cut o c lvl
+    have ha := nestData_cuta ann c lvl; have hr := nestData_cuta rest c lvl
+    cases ann with
+    | nil => simp only [PArcs.cut, PArcs.nestData]; omega
+    | cons p' o' v' ann' rest' => simp only [PArcs.cut, PArcs.nestData] at ha ⊢; omega
+end
+
+mutual
+/-- everything the writer nests = nesting of the data + nesting of anonymous blank nodes -/
+theorem nestAll_le : ∀ t : PT, t.nestAll ≤ t.nestData + t.anonNest
+  | .atom => by simp [PT.nestAll]
+  | .quoted s p o => by
+    have := nestAll_le s; have := nestAll_le p; have := nestAll_le o
+    simp only [PT.nestAll, PT.nestData, PT.anonNest]; omega
+  | .coll items => by
+    have := nestAll_les items
+    simp only [PT.nestAll, PT.nestData, PT.anonNest]; omega
+  | .anon arcs => by
+    have := nestAll_lea arcs
+    simp only [PT.nestAll, PT.nestData, PT.anonNest]; omega
+theorem nestAll_les : ∀ ts : PTs, ts.nestAll ≤ ts.nestData + ts.anonNest
+  | .nil => by simp [PTs.nestAll]
+  | .cons t ts => by
+    have := nestAll_le t; have := nestAll_les ts
+    simp only [PTs.nestAll, PTs.nestData, PTs.anonNest]; omega
+theorem nestAll_lea : ∀ a : PArcs, a.nestAll ≤ a.nestData + a.anonNest
+  | .nil => by simp [PArcs.nestAll]
+  | .cons p o v ann rest => by
+    have hp := nestAll_le p; have ho := nestAll_le o
+    have ha := nestAll_lea ann; have hr := nestAll_lea rest
+    cases ann with
+    | nil => simp only [PArcs.nestAll, PArcs.nestData, PArcs.anonNest]; omega
+    | cons p' o' v' ann' rest' =>
+      simp only [PArcs.nestAll, PArcs.nestData, PArcs.anonNest] at ha ⊢; omega
+end
+
+/-- THE REPAIRED PRETTIFIER, any tree, any cap `c`: depth ≤ 1 + 6 (nesting of the data + c), for any
+number of statements, arcs per node, items per collection and any length of blank node chains -/
+theorem pretty_repaired_depth_bounded (c : Nat) (t : PT) : wTerm (t.cut c 0) ≤ 1 + 6 * (t.nestData + c) := by
+  have h1 := pretty_depth_bounded (t.cut c 0)
+  have h2 := nestAll_le (t.cut c 0)
+  have h3 := nestData_cut t c 0
+  have h4 := anonNest_cut t c 0
+  omega
+
+/-- … and for a deferred blank node, described in a tree of its own (`write_properties` at nesting 0) -/
+theorem pretty_repaired_props_bounded (c : Nat) (a : PArcs) : wProps (a.cut c 0) ≤ 5 + 6 * (a.nestData + c) := by
+  have h1 := wProps_le (a.cut c 0)
+  have h2 := nestAll_lea (a.cut c 0)
+  have h3 := nestData_cuta a c 0
+  have h4 := anonNest_cuta a c 0
+  omega
+
+/-- the property's clause holds of the repaired text: bounded by a function of the nesting of the data -/
+theorem pretty_repaired_full (c : Nat) : ∃ a k : Nat, ∀ t : PT, wTerm (t.cut c 0) ≤ a + k * t.nestData :=
+  ⟨1 + 6 * c, 6, fun t => by have := pretty_repaired_depth_bounded c t; omega⟩
+
+/-- the harness family of the chain site IS the cut tree: what is left of a chain of `n` blank nodes
+entered at nesting `lvl` is a chain of `min n (c - lvl)` -/
+theorem cut_chain (c : Nat) (n lvl : Nat) : (chainPT n).cut c lvl = chainPT (min n (c - lvl)) := by
+  induction n generalizing lvl with
+  | zero => simp [chainPT, PT.cut]
+  | succ n ih =>
+    by_cases h : lvl ≥ c
+    · have : c - lvl = 0 := by omega
+      simp [chainPT, PT.cut, h, this]
+    · have e : min (n + 1) (c - lvl) = min n (c - (lvl + 1)) + 1 := by omega
+      rw [e]
+      simp [chainPT, PT.cut, PArcs.cut, h, ih]
+
 /-! ## the generated table -/
 
 /-- every row of the table regenerated from /repo names a function the model knows
@@ -822,6 +948,24 @@ theorem pretty_chain_status (cls : SiteClass) (hc : cls ≠ .selfRecursiveOnData
     simp only [siteDepth, hr, famChain, hcap, wTree, wProps, wTerm]
     simp; omega
 
+/-- the prettifier of /repo caps the nesting of `[ … ]` (decided on the constant regenerated from
+_pretty.rs on every run: removing `MAX_BNODE_NESTING` or its test in `write_bnode` fails this
+obligation) -/
+theorem pretty_cap_present : prettyBnodeNestingCap.isSome = true := by decide
+
+/-- for today's /repo, unconditionally: a chain of blank nodes of ANY length costs the prettifier at
+most 11 + 6 c nested calls, `c` the regenerated cap -/
+theorem pretty_chain_bounded :
+    ∃ c, prettyBnodeNestingCap = some c ∧
+      ∀ cls, cls ≠ .selfRecursiveOnData → ∀ n, siteDepth .prettyWriteCycle cls .bnodeChain n ≤ 11 + 6 * c := by
+  cases h : prettyBnodeNestingCap with
+  | none => have := pretty_cap_present; simp [h] at this
+  | some c =>
+    refine ⟨c, rfl, fun cls hc n => ?_⟩
+    have := pretty_chain_status cls hc
+    simp only [h] at this
+    exact this n
+
 /-! ## the hypotheses are satisfiable, the statements are not vacuous -/
 
 -- an iterator run where the first position is cached and rejects, with the recursive text 3 deep
@@ -849,6 +993,7 @@ example : convertD (.sub (.cons (.sub (.cons .leaf .nil)) (.cons .leaf .nil))) =
 example : selectD 3 famQuery = 6 ∧ selectD 0 famQuery = 5 ∧ famQuery.height = 2 := by decide
 example : wTerm (chainPT 3) = 16 ∧ (chainPT 3).nestData = 0 ∧ (chainPT 3).nestAll = 3 := by decide
 example : wTree .atom (famArcs 4) = 7 := by decide
+example : wTerm ((chainPT 9).cut 2 0) = 11 ∧ ((chainPT 9).cut 2 0).anonNest = 2 := by decide
 example : (dedupRec (some 1) [1, 1, 1, 2]).depth = 4 ∧ (dedupLoop (some 1) [1, 1, 1, 2]).item = some 2 := by decide
 
 end SophiaProofs.C16
